@@ -119,6 +119,13 @@ func (d *Dynamic) Draw(ctx vxfw.DrawContext) (vxfw.Surface, error) {
 
 	s := vxfw.NewSurface(ctx.Max.Width, ctx.Max.Height, d)
 
+	// The Builder may return fewer widgets than when we last drew. When the
+	// top widget is gone we fall back to the last widget which still exists
+	for d.scroll.top > 0 && d.Builder(d.scroll.top, d.cursor) == nil {
+		d.scroll.top -= 1
+		d.scroll.offset = 0
+	}
+
 	// Accumulated height is the accumulated height we have drawn. We
 	// initialize it to the scroll offset + any pending scroll we have. We
 	// negate it so that it is lines *above* the viewport.
